@@ -298,7 +298,8 @@ Qed.
 Lemma dec_N_spec n : n < 18446744073709551616 ->
   Numeral (dec_N n) /\ Shortest (dec_N n) /\ digits_val (dec_N n) = n.
 Proof.
-  intros H. unfold dec_N. destruct (print_dec_spec 19 n) as (A & B & C & _ & D); [cbn; lia|].
+  intros H. unfold dec_N. assert (Hpow : 10 ^ N.of_nat 20 = 100000000000000000000) by (vm_compute; reflexivity).
+  destruct (print_dec_spec 19 n) as (A & B & C & _ & D); [rewrite Hpow; lia|].
   split; [split; assumption|]. split; assumption.
 Qed.
 
